@@ -260,6 +260,12 @@ func decodeType(fold []byte, state *stateDecode) (*decoder, []byte, error) {
 		if err != nil {
 			return nil, nil, fmt.Errorf("unable to unfold type (slice): %s", err)
 		}
+		if encodesToNothing(decItem.Type) {
+			// such elements take no bytes of the packet: the number of them
+			// could not be checked against the data (see the encoder)
+			return nil, nil, fmt.Errorf("slice of zero-size elements is not supported")
+		}
+
 		vtype := reflect.SliceOf(decItem.Type)
 
 		fdec := func(value *reflect.Value, packet []byte, state *stateDecode) (*reflect.Value, []byte, error) {
@@ -346,6 +352,12 @@ func decodeType(fold []byte, state *stateDecode) (*decoder, []byte, error) {
 		if err != nil {
 			return nil, nil, fmt.Errorf("unable to unfold type (array): %s", err)
 		}
+		if encodesToNothing(decItem.Type) && n > 0 {
+			// such elements take no bytes of the packet: the number of them
+			// could not be checked against the data (see the encoder)
+			return nil, nil, fmt.Errorf("array of zero-size elements is not supported")
+		}
+
 		vtype := reflect.ArrayOf(n, decItem.Type)
 
 		fdec := func(value *reflect.Value, packet []byte, state *stateDecode) (*reflect.Value, []byte, error) {
